@@ -185,7 +185,8 @@ def split_trace(path, max_events=15000):
                 parts.append(cur)
                 cur, n = [], 0
             cur.append(line)
-            n += 1
+            # block-digest events stand for thousands of native calls that TLC recomputes: weigh them accordingly
+            n += 400 if len(line) < 400 and '"ev":"SizeSweep"' in line else 1
     if cur:
         parts.append(cur)
     if len(parts) <= 1:
